@@ -35,24 +35,42 @@ def generate(repo):
     mk = find_func(cls.body, "_make_composed_tracer", fn)
     inner = [n for n in mk.body if isinstance(n, ast.FunctionDef)]
     need(len(inner) == 1, mk, "one inner function expected in _make_composed_tracer", fn)
-    call_if = [n for n in inner[0].body if isinstance(n, ast.If) and isinstance(n.test, ast.Compare) and isinstance(n.test.left, ast.Name) and n.test.left.id == "evt"
-               and isinstance(n.test.comparators[0], ast.Constant) and n.test.comparators[0].value == "call"]
-    need(len(call_if) == 1, inner[0], "`if evt == \"call\":` expected in the composed tracer", fn)
+    def evt_test(n, op):
+        return isinstance(n, ast.If) and isinstance(n.test, ast.Compare) and isinstance(n.test.left, ast.Name) and n.test.left.id == "evt" \
+            and isinstance(n.test.ops[0], op) and isinstance(n.test.comparators[0], ast.Constant) and n.test.comparators[0].value == "call"
+    call_if = [n for n in inner[0].body if evt_test(n, ast.Eq)]
+    noncall_if = [n for n in inner[0].body if evt_test(n, ast.NotEq)]
+    need(len(call_if) + len(noncall_if) == 1, inner[0], "`if evt == \"call\":` or `if evt != \"call\":` expected once in the composed tracer", fn)
+    if call_if:
+        # older shape: the call case inside the `if`, other events fall through to a return that may hand a value to the interpreter
+        chain_start = call_if[0].body[0]
+        noncall_none, rebinds = False, False
+    else:
+        nc = noncall_if[0]
+        need(not nc.orelse and isinstance(nc.body[-1], ast.Return) and isinstance(nc.body[-1].value, ast.Constant) and nc.body[-1].value.value is None
+             and not any(isinstance(x, ast.Return) for st in nc.body[:-1] for x in ast.walk(st)), nc, "`if evt != \"call\":` must end in its only return, `return None`", fn)
+        rebinds = any(isinstance(x, ast.Assign) and isinstance(x.targets[0], ast.Name) and x.targets[0].id == "existing_tracer"
+                      and isinstance(x.value, ast.Name) and x.value.id == "existing_ret" for st in nc.body for x in ast.walk(st))
+        noncall_none = True
+        rest = inner[0].body[inner[0].body.index(nc) + 1:]
+        chain = [n for n in rest if isinstance(n, ast.If) and isinstance(n.test, ast.BoolOp)]
+        need(len(chain) >= 1, inner[0], "the call case (an if / elif chain on my_ret and existing_ret) expected after the non-call case", fn)
+        chain_start = chain[0]
     # find the branch `elif my_ret is None:`
-    node = call_if[0].body[0]
+    node = chain_start
     branch = None
     while isinstance(node, ast.If):
         if is_none_test(node.test, name="my_ret"):
             branch = node
             break
         node = node.orelse[0] if len(node.orelse) == 1 else None
-    need(branch is not None, call_if[0], "branch `my_ret is None` of the call case not found", fn)
+    need(branch is not None, chain_start, "branch `my_ret is None` of the call case not found", fn)
     b = branch.body
     if len(b) == 1 and isinstance(b[0], ast.Return) and isinstance(b[0].value, ast.Name) and b[0].value.id == "existing_ret":
         wraps = False
     elif len(b) == 2 and isinstance(b[0], ast.If) and is_none_test(b[0].test, name="existing_ret") and isinstance(b[0].body[0], ast.Return) \
             and isinstance(b[1], ast.Return) and isinstance(b[1].value, ast.Call) and isinstance(b[1].value.func, ast.Attribute) \
-            and b[1].value.func.attr == "_make_composed_tracer" and len(b[1].value.args) == 1 and isinstance(b[1].value.args[0], ast.Name) and b[1].value.args[0].id == "existing_ret":
+            and b[1].value.func.attr == "_make_composed_tracer" and len(b[1].value.args) >= 1 and isinstance(b[1].value.args[0], ast.Name) and b[1].value.args[0].id == "existing_ret":
         wraps = True
     else:
         raise Mismatch("%s:%s: branch `my_ret is None` of the composed tracer not recognised" % (fn, branch.lineno))
@@ -60,5 +78,10 @@ def generate(repo):
             "(* _call_existing_tracer skips the third-party function while self.existing_tracer is None *)\n"
             "Definition sys_checks_uninstall : bool := %s.\n"
             "(* a frame the tracer does not trace itself gets a composed local function around the third party's *)\n"
-            "Definition sys_wraps_foreign : bool := %s.\n" % ("true" if checks else "false", "true" if wraps else "false"))
+            "Definition sys_wraps_foreign : bool := %s.\n"
+            "(* for every event but 'call' the composed tracer returns None to the interpreter (the frame keeps its local function), whatever the handlers were given or left *)\n"
+            "Definition sys_noncall_returns_none : bool := %s.\n"
+            "(* when the third party's local function hands over to another local function, the frame's composed tracer follows *)\n"
+            "Definition sys_rebinds_local : bool := %s.\n"
+            % ("true" if checks else "false", "true" if wraps else "false", "true" if noncall_none else "false", "true" if rebinds else "false"))
     return {"SysFlags.v": text}
